@@ -29,6 +29,12 @@ inductive Err where
 /-- `np.finfo(np.float32).eps` = 2⁻²³ -/
 def eps32 : α := dy 1 (-23)
 
+/-- `np.log10(np.finfo(np.float32).eps)`: numpy evaluates the logarithm of a float32 scalar in SINGLE precision; stored into
+the float64 array `Pexit` it is the double −14520031·2⁻²¹ = −6.9236903190612793 (the real number log10 2⁻²³ is
+−6.9236899002715674…, so 10^ of it is 2⁻²³·(1 − 9.6e-7): see `C05.floorValue_bounds`).  The constant is what the source
+translator reads in the live module (`Gen.Src.C05.tauExitProb`). -/
+def log10Eps32 : α := dy (-14520031) (-21)
+
 /-- `grid_cdf_sampler(grid)(log_e_nu, beta, u)` for one event -/
 def cdfSample (t : CdfTable α) (le b u : α) : Except Err α :=
   if outOfBounds t.logE le || outOfBounds t.beta b then .error .outOfBounds
@@ -57,7 +63,7 @@ def pexitCall (t : PexitTable α) (b le : α) : PexitTable α × Except Err α :
   let bmin := t.beta.getD 0 0
   let bmax := t.beta.getD (t.beta.length - 1) 0
   let r : Except Err α :=
-    if ltb bmax b then .ok (pow 10 (log10 eps32))
+    if ltb bmax b then .ok (pow 10 log10Eps32)
     else
       let bq := if ltb b bmin then bmin else b
       if outOfBounds t.logE le || outOfBounds t.beta bq then .error .outOfBounds
